@@ -47,17 +47,23 @@ theorem closing_eq (n : Nat) :
 /-- a member the codec can represent: the (truncated) name and size fit the ordinary header; a longer name contains no NUL
     and its length fits a long-name header -/
 def MValid (c : Codec) (m : Member) : Prop :=
-  c.valid (m.name.take 100) m.data.length ∧ (100 < m.name.length → c.validLong (m.name.length + 1) ∧ ∀ b ∈ m.name, b ≠ 0)
+  c.valid (m.name.take 100) m.data.length ∧
+  (100 < m.name.length →
+    (c.pax = false → c.validLong (m.name.length + 1) ∧ ∀ b ∈ m.name, b ≠ 0) ∧
+    (c.pax = true → c.validPax (paxPayload c m.name).length))
 
 /-- bytes in front of a member's data: the long-name record (if any) and the ordinary header -/
 def headLen (c : Codec) (m : Member) : Nat := (longRecord c m.name).length + 512
 
 theorem longRecord_length (c : Codec) (name : List Byte) :
-    (longRecord c name).length = if name.length ≤ 100 then 0 else 512 + blockLen (name.length + 1) := by
+    (longRecord c name).length = if name.length ≤ 100 then 0
+      else if c.pax then 512 + blockLen (paxPayload c name).length else 512 + blockLen (name.length + 1) := by
   unfold longRecord blockLen
   split
   · rfl
-  · simp only [List.length_append, c.encLong_len, zeros_length, List.length_cons, List.length_nil]
+  · split
+    · simp only [List.length_append, c.encPax_len, zeros_length]
+    · simp only [List.length_append, c.encLong_len, zeros_length, List.length_cons, List.length_nil]
 
 theorem encMember_length (c : Codec) (m : Member) :
     (encMember c m).length = headLen c m + m.data.length + padLen m.data.length := by
@@ -82,6 +88,13 @@ theorem classify_enc (c : Codec) (n : List Byte) (s : Nat) (h : c.valid n s) : c
 theorem classify_encLong (c : Codec) (n : Nat) (h : c.validLong n) : classify c.dec (c.encLong n) = .longname n := by
   unfold classify
   simp [c.encLong_len, c.encLong_nonzero n h, c.dec_encLong n h]
+
+theorem classify_encPax (c : Codec) (n : Nat) (h : c.validPax n) : classify c.dec (c.encPax n) = .paxhdr n := by
+  unfold classify
+  simp [c.encPax_len, c.encPax_nonzero n h, c.dec_encPax n h]
+
+theorem applyPath_single (name x : List Byte) : applyPath [(pathKey, name)] x = name := by
+  simp [applyPath, lookupLast]
 
 theorem classify_zeros (dec : Dec) : classify dec (zeros 512) = .eof := by
   unfold classify
@@ -137,46 +150,92 @@ theorem readMembers_member (c : Codec) (p : Nat → Nat → Nat) (m : Member) (r
     have d2 : (m.data ++ (zeros (padLen m.data.length) ++ rest)).drop m.data.length
         = zeros (padLen m.data.length) ++ rest := List.drop_left' rfl
     simp only [readMembers, hs, read_mk, t1, d1, classify_enc c _ _ hval, c.enc_len, t2, d2, mkReader_pos, hH]
-  · -- long-name record, then the ordinary header
+  · -- an extension record, then the ordinary header
     have hgt : 100 < m.name.length := by omega
-    obtain ⟨hvl, hnz⟩ := hlong hgt
-    have hnbl : (m.name ++ [0] ++ zeros (padLen (m.name.length + 1))).length = blockLen (m.name.length + 1) := by
-      simp only [List.length_append, zeros_length, List.length_cons, List.length_nil, blockLen]
-    have hE : encMember c m ++ rest
-        = c.encLong (m.name.length + 1) ++ ((m.name ++ [0] ++ zeros (padLen (m.name.length + 1))) ++
-            (c.enc (m.name.take 100) m.data.length ++ (m.data ++ (zeros (padLen m.data.length) ++ rest)))) := by
-      simp [encMember, longRecord, hshort, List.append_assoc]
-    have hH : headLen c m = 512 + blockLen (m.name.length + 1) + 512 := by
-      simp only [headLen, longRecord_length, hshort, if_false]
-    rw [hE] at hs ⊢
-    have t0 : (c.encLong (m.name.length + 1) ++ ((m.name ++ [0] ++ zeros (padLen (m.name.length + 1))) ++
-            (c.enc (m.name.take 100) m.data.length ++ (m.data ++ (zeros (padLen m.data.length) ++ rest))))).take 512
-        = c.encLong (m.name.length + 1) := List.take_left' (c.encLong_len _)
-    have d0 : (c.encLong (m.name.length + 1) ++ ((m.name ++ [0] ++ zeros (padLen (m.name.length + 1))) ++
-            (c.enc (m.name.take 100) m.data.length ++ (m.data ++ (zeros (padLen m.data.length) ++ rest))))).drop 512
-        = (m.name ++ [0] ++ zeros (padLen (m.name.length + 1))) ++
-            (c.enc (m.name.take 100) m.data.length ++ (m.data ++ (zeros (padLen m.data.length) ++ rest))) :=
-      List.drop_left' (c.encLong_len _)
-    have tn : ((m.name ++ [0] ++ zeros (padLen (m.name.length + 1))) ++
-            (c.enc (m.name.take 100) m.data.length ++ (m.data ++ (zeros (padLen m.data.length) ++ rest)))).take (blockLen (m.name.length + 1))
-        = m.name ++ [0] ++ zeros (padLen (m.name.length + 1)) := List.take_left' hnbl
-    have dn : ((m.name ++ [0] ++ zeros (padLen (m.name.length + 1))) ++
-            (c.enc (m.name.take 100) m.data.length ++ (m.data ++ (zeros (padLen m.data.length) ++ rest)))).drop (blockLen (m.name.length + 1))
-        = c.enc (m.name.take 100) m.data.length ++ (m.data ++ (zeros (padLen m.data.length) ++ rest)) := List.drop_left' hnbl
-    have t1 : (c.enc (m.name.take 100) m.data.length ++ (m.data ++ (zeros (padLen m.data.length) ++ rest))).take 512
-        = c.enc (m.name.take 100) m.data.length := List.take_left' (c.enc_len _ _)
-    have d1 : (c.enc (m.name.take 100) m.data.length ++ (m.data ++ (zeros (padLen m.data.length) ++ rest))).drop 512
-        = m.data ++ (zeros (padLen m.data.length) ++ rest) := List.drop_left' (c.enc_len _ _)
-    have t2 : (m.data ++ (zeros (padLen m.data.length) ++ rest)).take m.data.length = m.data := List.take_left' rfl
-    have d2 : (m.data ++ (zeros (padLen m.data.length) ++ rest)).drop m.data.length
-        = zeros (padLen m.data.length) ++ rest := List.drop_left' rfl
-    simp only [readMembers, hs, read_mk, t0, d0, classify_encLong c _ hvl, c.encLong_len, tn, dn, hnbl, t1, d1,
-      classify_enc c _ _ hval, c.enc_len, t2, d2, mkReader_pos, hH, nts_name m.name _ hnz]
-    have e1 : off + 512 + blockLen (m.name.length + 1) + 512 + m.data.length
-        = off + (512 + blockLen (m.name.length + 1) + 512) + m.data.length := by omega
-    have e2 : off + 512 + blockLen (m.name.length + 1) + 512 + blockLen m.data.length
-        = off + (512 + blockLen (m.name.length + 1) + 512) + blockLen m.data.length := by omega
-    rw [e1, e2]
+    obtain ⟨hgnu, hpax⟩ := hlong hgt
+    cases hfmt : c.pax with
+    | false =>
+      obtain ⟨hvl, hnz⟩ := hgnu hfmt
+      have hnbl : (m.name ++ [0] ++ zeros (padLen (m.name.length + 1))).length = blockLen (m.name.length + 1) := by
+        simp only [List.length_append, zeros_length, List.length_cons, List.length_nil, blockLen]
+      have hE : encMember c m ++ rest
+          = c.encLong (m.name.length + 1) ++ ((m.name ++ [0] ++ zeros (padLen (m.name.length + 1))) ++
+              (c.enc (m.name.take 100) m.data.length ++ (m.data ++ (zeros (padLen m.data.length) ++ rest)))) := by
+        simp [encMember, longRecord, hshort, hfmt, List.append_assoc]
+      have hH : headLen c m = 512 + blockLen (m.name.length + 1) + 512 := by
+        simp only [headLen, longRecord_length, hshort, hfmt, if_false, Bool.false_eq_true]
+      rw [hE] at hs ⊢
+      have t0 : (c.encLong (m.name.length + 1) ++ ((m.name ++ [0] ++ zeros (padLen (m.name.length + 1))) ++
+              (c.enc (m.name.take 100) m.data.length ++ (m.data ++ (zeros (padLen m.data.length) ++ rest))))).take 512
+          = c.encLong (m.name.length + 1) := List.take_left' (c.encLong_len _)
+      have d0 : (c.encLong (m.name.length + 1) ++ ((m.name ++ [0] ++ zeros (padLen (m.name.length + 1))) ++
+              (c.enc (m.name.take 100) m.data.length ++ (m.data ++ (zeros (padLen m.data.length) ++ rest))))).drop 512
+          = (m.name ++ [0] ++ zeros (padLen (m.name.length + 1))) ++
+              (c.enc (m.name.take 100) m.data.length ++ (m.data ++ (zeros (padLen m.data.length) ++ rest))) :=
+        List.drop_left' (c.encLong_len _)
+      have tn : ((m.name ++ [0] ++ zeros (padLen (m.name.length + 1))) ++
+              (c.enc (m.name.take 100) m.data.length ++ (m.data ++ (zeros (padLen m.data.length) ++ rest)))).take (blockLen (m.name.length + 1))
+          = m.name ++ [0] ++ zeros (padLen (m.name.length + 1)) := List.take_left' hnbl
+      have dn : ((m.name ++ [0] ++ zeros (padLen (m.name.length + 1))) ++
+              (c.enc (m.name.take 100) m.data.length ++ (m.data ++ (zeros (padLen m.data.length) ++ rest)))).drop (blockLen (m.name.length + 1))
+          = c.enc (m.name.take 100) m.data.length ++ (m.data ++ (zeros (padLen m.data.length) ++ rest)) := List.drop_left' hnbl
+      have t1 : (c.enc (m.name.take 100) m.data.length ++ (m.data ++ (zeros (padLen m.data.length) ++ rest))).take 512
+          = c.enc (m.name.take 100) m.data.length := List.take_left' (c.enc_len _ _)
+      have d1 : (c.enc (m.name.take 100) m.data.length ++ (m.data ++ (zeros (padLen m.data.length) ++ rest))).drop 512
+          = m.data ++ (zeros (padLen m.data.length) ++ rest) := List.drop_left' (c.enc_len _ _)
+      have t2 : (m.data ++ (zeros (padLen m.data.length) ++ rest)).take m.data.length = m.data := List.take_left' rfl
+      have d2 : (m.data ++ (zeros (padLen m.data.length) ++ rest)).drop m.data.length
+          = zeros (padLen m.data.length) ++ rest := List.drop_left' rfl
+      simp only [readMembers, hs, read_mk, t0, d0, classify_encLong c _ hvl, c.encLong_len, tn, dn, hnbl, t1, d1,
+        classify_enc c _ _ hval, c.enc_len, t2, d2, mkReader_pos, hH, nts_name m.name _ hnz]
+      have e1 : off + 512 + blockLen (m.name.length + 1) + 512 + m.data.length
+          = off + (512 + blockLen (m.name.length + 1) + 512) + m.data.length := by omega
+      have e2 : off + 512 + blockLen (m.name.length + 1) + 512 + blockLen m.data.length
+          = off + (512 + blockLen (m.name.length + 1) + 512) + blockLen m.data.length := by omega
+      rw [e1, e2]
+    | true =>
+      have hvp := hpax hfmt
+      -- abbreviations for the records block
+      have hpl : (paxPayload c m.name ++ zeros (padLen (paxPayload c m.name).length)).length = blockLen (paxPayload c m.name).length := by
+        simp only [List.length_append, zeros_length, blockLen]
+      have hE : encMember c m ++ rest
+          = c.encPax (paxPayload c m.name).length ++ ((paxPayload c m.name ++ zeros (padLen (paxPayload c m.name).length)) ++
+              (c.enc (m.name.take 100) m.data.length ++ (m.data ++ (zeros (padLen m.data.length) ++ rest)))) := by
+        simp [encMember, longRecord, hshort, hfmt, List.append_assoc]
+      have hH : headLen c m = 512 + blockLen (paxPayload c m.name).length + 512 := by
+        simp only [headLen, longRecord_length, hshort, hfmt, if_false, if_true]
+      rw [hE] at hs ⊢
+      have t0 : (c.encPax (paxPayload c m.name).length ++ ((paxPayload c m.name ++ zeros (padLen (paxPayload c m.name).length)) ++
+              (c.enc (m.name.take 100) m.data.length ++ (m.data ++ (zeros (padLen m.data.length) ++ rest))))).take 512
+          = c.encPax (paxPayload c m.name).length := List.take_left' (c.encPax_len _)
+      have d0 : (c.encPax (paxPayload c m.name).length ++ ((paxPayload c m.name ++ zeros (padLen (paxPayload c m.name).length)) ++
+              (c.enc (m.name.take 100) m.data.length ++ (m.data ++ (zeros (padLen m.data.length) ++ rest))))).drop 512
+          = (paxPayload c m.name ++ zeros (padLen (paxPayload c m.name).length)) ++
+              (c.enc (m.name.take 100) m.data.length ++ (m.data ++ (zeros (padLen m.data.length) ++ rest))) :=
+        List.drop_left' (c.encPax_len _)
+      have tn : ((paxPayload c m.name ++ zeros (padLen (paxPayload c m.name).length)) ++
+              (c.enc (m.name.take 100) m.data.length ++ (m.data ++ (zeros (padLen m.data.length) ++ rest)))).take (blockLen (paxPayload c m.name).length)
+          = paxPayload c m.name ++ zeros (padLen (paxPayload c m.name).length) := List.take_left' hpl
+      have dn : ((paxPayload c m.name ++ zeros (padLen (paxPayload c m.name).length)) ++
+              (c.enc (m.name.take 100) m.data.length ++ (m.data ++ (zeros (padLen m.data.length) ++ rest)))).drop (blockLen (paxPayload c m.name).length)
+          = c.enc (m.name.take 100) m.data.length ++ (m.data ++ (zeros (padLen m.data.length) ++ rest)) := List.drop_left' hpl
+      have tp : (paxPayload c m.name ++ zeros (padLen (paxPayload c m.name).length)).take (paxPayload c m.name).length
+          = paxPayload c m.name := List.take_left' rfl
+      have t1 : (c.enc (m.name.take 100) m.data.length ++ (m.data ++ (zeros (padLen m.data.length) ++ rest))).take 512
+          = c.enc (m.name.take 100) m.data.length := List.take_left' (c.enc_len _ _)
+      have d1 : (c.enc (m.name.take 100) m.data.length ++ (m.data ++ (zeros (padLen m.data.length) ++ rest))).drop 512
+          = m.data ++ (zeros (padLen m.data.length) ++ rest) := List.drop_left' (c.enc_len _ _)
+      have t2 : (m.data ++ (zeros (padLen m.data.length) ++ rest)).take m.data.length = m.data := List.take_left' rfl
+      have d2 : (m.data ++ (zeros (padLen m.data.length) ++ rest)).drop m.data.length
+          = zeros (padLen m.data.length) ++ rest := List.drop_left' rfl
+      have hrec : c.dec.recs (paxPayload c m.name) = [(pathKey, m.name)] := c.dec_encRecs _
+      simp only [readMembers, hs, read_mk, t0, d0, classify_encPax c _ hvp, c.encPax_len, tn, dn, hpl, tp, hrec, applyPath_single,
+        t1, d1, classify_enc c _ _ hval, c.enc_len, t2, d2, mkReader_pos, hH]
+      have e1 : off + 512 + blockLen (paxPayload c m.name).length + 512 + m.data.length
+          = off + (512 + blockLen (paxPayload c m.name).length + 512) + m.data.length := by omega
+      have e2 : off + 512 + blockLen (paxPayload c m.name).length + 512 + blockLen m.data.length
+          = off + (512 + blockLen (paxPayload c m.name).length + 512) + blockLen m.data.length := by omega
+      rw [e1, e2]
 
 /-- **peeling**: reading an archive that starts (at the current offset) with the blocks of `ms` extracts exactly `ms` and goes
     on with what follows — for every chunking policy `p` -/
@@ -220,6 +279,9 @@ theorem readMembers_policy (dec : Dec) (p p' : Nat → Nat → Nat) :
     · simp only [readMembers, seek_mk _ _ _ _ h, read_mk, mkReader_pos]
       cases classify dec (List.take 512 (List.drop (offset - pos) data)) with
       | longname n =>
+        simp only
+        cases classify dec (List.take 512 (List.drop (blockLen n) (List.drop 512 (List.drop (offset - pos) data)))) <;> simp only [ih]
+      | paxhdr n =>
         simp only
         cases classify dec (List.take 512 (List.drop (blockLen n) (List.drop 512 (List.drop (offset - pos) data)))) <;> simp only [ih]
       | _ => simp only [ih]
